@@ -13,6 +13,7 @@
      all three bases with leading zeros, label limit, undefined-label scan covers
      every label-bearing instruction, same normalisation on both sides.
 """
+import os
 from .. import absint, shapes, mirutil, spec, grammar, pestmodel
 from .. import domain as D
 from ..domain import Agg, En, Ref, Arr, It, Str, Opaque, TOP, BOT
@@ -108,7 +109,7 @@ def _fmt_seq(seq):
     return "[" + " ".join(x if isinstance(x, str) else "(%s)*" % "|".join(" ".join(a) for a in x[1]) for x in seq) + "]"
 
 
-def run(ctx):
+def run(ctx, only_entry=False):
     p = ctx.p
     chk = ctx.chk
     g = grammar.Grammar(p.grammar)
@@ -124,6 +125,7 @@ def run(ctx):
     done = set()
     runs = 0
     results = {}        # (fn, rule) -> list of (desc, return value)
+    entry_items = []
     site_fail = {}
     unanalysable = []
     reached_fns = set()
@@ -208,6 +210,8 @@ def run(ctx):
                 pending_alts = new_alts
                 continue
             results.setdefault((fn, rule), []).append((desc, rv, tuple(x.rule for x in items if isinstance(x, PairV))))
+            if fn == ENTRY:
+                entry_items.append((desc, items, rv))
             for e in I.events:
                 if e.in_log:
                     continue
@@ -218,20 +222,49 @@ def run(ctx):
                     unanalysable.append((fn, rule, desc, repr(e)))
                 elif e.kind == "unknown_extern" and not str(e.info).startswith(("core::fmt", "alloc::fmt")):
                     unanalysable.append((fn, rule, desc, repr(e)))
-            for (callee, r) in calls:
+            for (callee, r) in ([] if only_entry else calls):
                 if r is not None and callee not in HELPERS:
                     work.append((callee, r))
                 elif r is None and p.bodies.get(callee) is not None and p.bodies[callee].argc == 0:
                     work.append((callee, None))
     chk.note("consumer runs: %d over %d (function, rule) pairs" % (runs, len(done)))
     chk.note("grammar alternatives pruned as dead (shadowed under ordered choice): %s" % sorted(set(g.pruned)))
-    chk.floor("(consumer, rule) pairs analysed", len(done), 74)
+    if not only_entry:
+        chk.floor("(consumer, rule) pairs analysed", len(done), 74)
     chk.ob("consumers-analysable", not unanalysable, "every consumer run is interpreted without an unmodelled construct",
            "", "%s" % unanalysable[:5])
-    never = sorted(c for c in consumers if c not in reached_fns)
+    never = [] if only_entry else sorted(c for c in consumers if c not in reached_fns)
     chk.ob("consumers-all-reached", not never, "every parse_* function is reached from AsmParser::parse through the grammar",
            "", "never called: %s" % never[:8])
 
+    # ---- clause 4a: the program is one Line per `line` pair, in order ---------------------
+    asm_t = p.need_type("L::parser::ast::Asm")
+    afields = [f["n"] for f in asm_t["variants"][0]["fields"]]
+    chk.floor("file-level parse tree alternatives", len(entry_items), 16)
+    for desc, items, rv in entry_items:
+        want_lines = tuple(("ast", "parse_line", x.idx) for x in items if isinstance(x, PairV) and x.rule == "line")
+        hdr = [x for x in items if isinstance(x, PairV) and x.rule == "header"]
+        hkids = hdr[0].children if hdr and hdr[0].children is not None else ()
+        want_c = [("ast", "parse_comment", x.idx) for x in hkids if isinstance(x, PairV) and x.rule == "comment"]
+        ok_payload = rv.vs.get(0) if isinstance(rv, En) else None
+        asm = ok_payload[0] if ok_payload else None
+        got_lines = got_c = None
+        if isinstance(asm, Agg) and len(asm.f) == len(afields):
+            got_lines = asm.f[afields.index("lines")]
+            got_c = asm.f[afields.index("comment_after_shebang")]
+        lines_ok = isinstance(got_lines, Arr) and tuple(getattr(e, "tag", None) for e in got_lines.e) == want_lines
+        if want_c:
+            c_ok = isinstance(got_c, En) and set(got_c.vs) == {1} and getattr(got_c.vs[1][0], "tag", None) == want_c[-1]
+        else:
+            c_ok = isinstance(got_c, En) and set(got_c.vs) == {0}
+        chk.ob("program/%s" % desc.replace("file children ", "").replace(" ", "_"), lines_ok and c_ok,
+               "the parsed program holds exactly one Line per `line` pair of the parse tree, in source order (also empty "
+               "trailing lines), and the header comment iff the header has one",
+               p.bodies[ENTRY].loc(), "lines %r (expected %s); header comment %r" % (got_lines, list(want_lines), got_c),
+               "A4 of AsmParser::parse over every file-level child sequence, parse_line/parse_comment as tagged stand-ins")
+
+    if only_entry:
+        return
     # ---- clause 1/2: panic sites -----------------------------------------------------
     from .. import panics
     sites = panics.enumerate_sites(p, sorted(reached_fns))
